@@ -153,7 +153,7 @@ def sequence(ctx, r, idx):
 		at_src = [d for d, _ in src.take_all()]
 		elsewhere = [d for d, _ in (node.l1_ctrl.take_all() if from_other else other.take_all())]
 		ctx.count("commands")
-		ctx.seen(hash((idx, k, text)))
+		ctx.seen(hash((ctx.shard[0], idx, k, text)))
 		w = {"history": log[-12:], "command": text[:300], "replies": [d[:80].hex() for d in at_src]}
 		if len(at_src) != 1 or elsewhere:
 			ctx.violation("reply-count", dict(w, elsewhere = len(elsewhere)),
